@@ -1538,6 +1538,19 @@ func (e *Enc) bytesInterpretation(bseq string) {
 	if !ok1 || !ok2 || gl.Body != nil || ga.Body != nil || len(gl.Params) != 1 || len(ga.Params) != 2 {
 		return
 	}
+	// the element-wise reading is only useful together with a theory of bat: it is emitted when an axiom that mentions
+	// bat is in scope for the property being checked (axioms may be scoped: axiom[Cxx] ...)
+	theory := false
+	for _, ax := range e.DB.Axioms {
+		if strings.Contains(ax.Src, "bat(") && (len(ax.Props) == 0 || currentProperty == "" || ax.Props[currentProperty]) {
+			theory = true
+			break
+		}
+	}
+	if !theory {
+		e.declared["bytes!interp"] = "off"
+		return
+	}
 	e.declared["bytes!interp"] = "done"
 	ln, ls, err1 := e.ghostSymbol(gl)
 	an, as, err2 := e.ghostSymbol(ga)
